@@ -4,7 +4,7 @@
 set -e
 cd "$(dirname "$0")"
 V=/verif/.venv
-if [ -x "$V/bin/python" ] && "$V/bin/python" -c "import z3, numpy, scipy, tdgl" >/dev/null 2>&1; then
+if [ -x "$V/bin/python" ] && [ -f "$V/.ok" ]; then
   exit 0
 fi
 (
@@ -16,5 +16,5 @@ fi
   printf "import site; site.addsitedir('/venv/lib/python3.12/site-packages')\n/repo\n" > "$SP/_overlay.pth"
   PIP_NO_INDEX=1 "$V/bin/pip" install -q --no-index --find-links /opt/veriftools/wheels z3-solver >/dev/null
   PIP_NO_INDEX=1 "$V/bin/pip" install -q --no-index --find-links /opt/veriftools/wheels crosshair-tool >/dev/null 2>&1 || true
-  "$V/bin/python" -c "import z3, numpy, scipy, tdgl"
+  "$V/bin/python" -c "import z3, numpy, scipy, tdgl" && touch "$V/.ok"
 ) 9>/verif/.setup.lock
